@@ -116,8 +116,9 @@ def check_merge(sigs, outcome, maxn=None, calls=None):
                 bad.append(('post:sound_mixed', 'call %r' % ((n, ks),)))
         if ins and not a and aligned and nonc:
             bad.append(('post:exact', 'call %r' % ((n, ks),)))
-    if not isinstance(res, _signatures.UpgradedSignature) or not all(isinstance(p, _signatures.UpgradedParameter) for p in res.parameters.values()):
-        bad.append(('post:wellformed:upgraded_with_depths', 'not upgraded'))
+    if not isinstance(res, _signatures.UpgradedSignature) or not all(isinstance(p, _signatures.UpgradedParameter) for p in res.parameters.values()) \
+            or '+depths' not in getattr(res, 'sources', {}):
+        bad.append(('post:wellformed:upgraded_with_depths', 'not upgraded, or no depth map'))
     funcs = []
     for s in sigs:
         for f in s.sources.get('+depths', {}):
